@@ -689,7 +689,6 @@ fn build_segment_from_runs(seg_id: SegmentId, runs: &Arc<Vec<Arc<L0Run>>>) -> Cs
 
     for run in runs.iter() {
         blocked_nodes.extend(run.iter_tombstoned_nodes());
-        blocked_edges.extend(run.iter_tombstoned_edges());
 
         for e in run.iter_edges() {
             if blocked_nodes.contains(&e.src) || blocked_nodes.contains(&e.dst) {
@@ -700,6 +699,10 @@ fn build_segment_from_runs(seg_id: SegmentId, runs: &Arc<Vec<Arc<L0Run>>>) -> Cs
             }
             edges.push(e);
         }
+
+        // Like the read path: a run's edge tombstones hide older runs only. The run's own edges
+        // were created after the tombstone (delete + re-create in one transaction).
+        blocked_edges.extend(run.iter_tombstoned_edges());
     }
 
     edges.sort();
